@@ -655,6 +655,9 @@ theorem step_elems (rc : Bool) (h : Rel m db) (he : ElemsOK m.raws db) (s : Stmt
         exact Prod.ext rfl hvf
       · exact ⟨fun y hy => hfr.1 y ((List.eraseIdx_sublist _ _).subset hy), hfr.2⟩
   | commentOn t c text => simp [Stmt.elemSafe, Stmt.colSafe] at hs
+  | alterType t c typ => simp [Stmt.elemSafe, Stmt.colSafe] at hs
+  | setDefault t c d => simp [Stmt.elemSafe, Stmt.colSafe] at hs
+  | dropNotNull t c => simp [Stmt.elemSafe, Stmt.colSafe] at hs
 
 theorem run_elems (rc : Bool) (ss : List Stmt) : ∀ (m : Migration) (db db' : DB), Rel m db → ElemsOK m.raws db →
     ss.all Stmt.elemSafe = true → execAll rc db ss = some db' →
